@@ -7,6 +7,7 @@ import (
 	"go/types"
 	"sort"
 	"strings"
+	"unicode/utf8"
 
 	"golang.org/x/tools/go/ssa"
 )
@@ -998,6 +999,10 @@ func inLoop(b *ssa.BasicBlock) bool {
 
 func short(s string, n int) string {
 	if len(s) > n {
+		// cut at a rune boundary (the renderings contain ι, φ, …)
+		for n > 0 && !utf8.RuneStart(s[n]) {
+			n--
+		}
 		return s[:n] + "…"
 	}
 	return s
